@@ -124,7 +124,12 @@ def check_case(case):
     n = len(string_holes(t))
     fnames = field_names(t)
     ben_s = ["s%d" % i for i in range(n)]
-    adv_s = ["h%d~%s" % (i, case["strings"][i] if i < len(case["strings"]) else "") for i in range(n)]
+    # the unique marker goes in front of or behind the adversarial content (a defect may only look at
+    # how a string *starts*, e.g. "looks like a date")
+    if case.get("marker") == "suffix":
+        adv_s = ["%s~h%d~" % (case["strings"][i] if i < len(case["strings"]) else "", i) for i in range(n)]
+    else:
+        adv_s = ["h%d~%s" % (i, case["strings"][i] if i < len(case["strings"]) else "") for i in range(n)]
     ben_f = {f: "f%d" % j for j, f in enumerate(fnames)}
     adv_f = {f: case["fields"][j] for j, f in enumerate(fnames)} if case.get("fields") else {f: f for f in fnames}
     ben_t = instantiate(t, ben_s, ben_f)
@@ -164,7 +169,7 @@ def check_case(case):
                 return ("token-sequence-changed", "%s: benign %r -> %s ; adversarial %r -> %s" % (dname, rb[2], sb, ra[2], sa_))
             strs = [txt.replace("\\", "") for k, txt in ta if k == "str"]
             for i in range(n):
-                marker = "h%d~" % i
+                marker = ("~h%d~" % i) if case.get("marker") == "suffix" else ("h%d~" % i)
                 cnt = sum(1 for s_ in strs if marker in s_)
                 if cnt != 1:
                     return ("string-not-in-exactly-one-literal", "%s: %r -> %s : marker %s in %d string tokens" % (dname, ra[2], sa_, marker, cnt))
@@ -312,7 +317,7 @@ def run_task(task, seed, acc):
         acc.cls("dialects_excluded_by_known_finding", case.pop("_excluded", 0))
         acc.cls("hostile_field_spelling_rejected_by_lexer", case.pop("_hostile_rejected", 0))
         nt = nontrivial(t, case["strings"])
-        acc.case(key=digest([case["term"], case["strings"], case.get("fields")]), nontrivial=nt, n=6,
+        acc.case(key=digest([case["term"], case["strings"], case.get("fields"), case.get("marker")]), nontrivial=nt, n=6,
                  sample={"adversarial_filter": printer.render(instantiate(
                      t, ["h%d~%s" % (i, s) for i, s in enumerate(case["strings"])], {}))[:300]})
         acc.cls("sqlite_prepared_adversarial", prepared)
@@ -333,6 +338,7 @@ def run_task(task, seed, acc):
                 if idx % task["k"] != task["i"]:
                     continue
                 one({"term": to_json(t), "strings": [p] * n, "fields": None})
+                one({"term": to_json(t), "strings": [p] * n, "fields": None, "marker": "suffix"})
         acc.extra["exhaustive"] = True
         return
 
@@ -349,6 +355,7 @@ def run_task(task, seed, acc):
             fields = [draw(adv_idents()) for _ in field_names(t)]
             if len(set(fields)) != len(fields):
                 fields = None
-        return {"term": to_json(t), "strings": strings, "fields": fields}
+        return {"term": to_json(t), "strings": strings, "fields": fields,
+                "marker": draw(st.sampled_from(["prefix", "suffix"]))}
 
     hyp_run(cases(), one, task["n"], seed * 1000 + task["shard"])
